@@ -27,7 +27,7 @@ EXHAUSTIVE_SUBSPACES = 'every islice (start,stop,step) tuple over start in {None
 EXHAUSTIVE = {"quick": False, "thorough": False}
 
 N_RANDOM = {"quick": 150000, "thorough": 8000000}
-FLAVS = ["list", "list", "async_gen", "async_class", "sync_iter", "tuple", "getitem_seq", "sync_gen", "async_class_bare", "async_iterable", "sync_iterable"]
+FLAVS = ["list", "list", "async_gen", "async_class", "sync_iter", "tuple", "getitem_seq", "sync_gen", "async_class_bare", "async_iterable", "sync_iterable", "sync_mapping"]
 
 
 def cases(tier, seed, shard, nshards):
